@@ -132,7 +132,11 @@ func (ctx *baseTaskContext) addRequests(req *protoCommonV1.TaskRequest, physical
 // Complete completes the task with error(if execute failure).
 func (ctx *baseTaskContext) Complete(err error) {
 	ctx.mutex.Lock()
-	ctx.err = err
+	if err != nil {
+		// NOTE: a response can arrive before the pipeline which sent the requests completes,
+		// completing without error must not clear the error of that response.
+		ctx.err = err
+	}
 	ctx.mutex.Unlock()
 
 	ctx.tryClose()
